@@ -59,6 +59,18 @@ Representation streams (the property speaks of design points and of disciplines,
   block ``2 Q diag(v - v0)`` that is exactly zero at the ``vanish`` point of the history (v = v0, v0 = 0 in half of
   the cases) after points where it is not (histogram key ``jacobian-block-exactly-zero-after-nonzero``).
 
+Session streams (the property speaks of formulations of the same problem, not of the order in which a process builds them):
+
+* the formulations of a case (4 MDF, 2-7 IDF, DisciplinaryOpt, the DOE scenario) are built from design spaces with the same
+  names and sizes, either one after the other (each dropped before the next) or all first and ALIVE TOGETHER, their
+  function objects being evaluated point by point in an interleaved, rotating order; build / first-evaluation order
+  canonical (MDF first), reversed (IDF first) or mixed; each formulation is judged by the closed forms, which do not
+  depend on any order; 40 % of the cases have a further discipline computing functions of design variables only (in most
+  of them: of exactly the variables MDF selects, which sit elsewhere in IDF's design space);
+* design variables (and fixed parameters) may be OPTIONAL inputs of the harness disciplines (in the input grammar, with a
+  default, not in `required_names`): the design spaces, values and derivatives are the same closed forms;
+* a failing input is confirmed in a fresh interpreter before it is written as a replay (the harness process has a history).
+
 Out of scope (stated): BiLevel and other composite formulations, `differentiated_input_names_substitute`,
 optimiser convergence.
 """
@@ -1778,7 +1790,9 @@ def case_lines(case) -> list[str]:
         dfl = " ".join(f"def.{n}={_rl(P(a) for a in v)}" for n, v in d.get("defaults", {}).items())
         dl = ",".join(d.get("declare_linear", [])) or "[]"
         sto = {"dense": "d", "mixed": "m"}.get(d.get("jac_storage", "dense"), "s")
-        lines.append(f"disc {d['name']} {ins} {dl} {dfl}".rstrip() + f" sto={sto}")
+        # (opt=: the inputs the grammar does not require; the model's inputs are the grammar NAMES, no answer depends on it)
+        opt = (" opt=" + ",".join(d["optional"])) if d.get("optional") else ""
+        lines.append(f"disc {d['name']} {ins} {dl} {dfl}".rstrip() + opt + f" sto={sto}")
         for o, s in d["outs"]:
             toks = [f"out {d['name']} {o} const={_rl(P(a) for a in s['const'])}"]
             for v, b in s.get("lin", {}).items():
@@ -2659,7 +2673,10 @@ def run(ctx) -> Result:
         "configurations at 4-6 points on the same function objects (every returned array held until the last call), and one of "
         "these formulations is run through a DOE scenario with eval_jac whose database is read back. Points are passed as float64, "
         "int64 (integer coordinates) or float32 arrays and through evaluate_functions() at the current value; design variables "
-        "float, all integer or mixed; discipline Jacobians dense or value-built sparse, with blocks that vanish at one point of the history."
+        "float, all integer or mixed; discipline Jacobians dense or value-built sparse, with blocks that vanish at one point of the history. "
+        "The formulations of a case are used one after the other or are all alive together (interleaved evaluations; built MDF-first, "
+        "IDF-first or mixed); 40 % of the cases have a discipline computing functions of design variables only; design variables / fixed "
+        "parameters may be optional inputs of the disciplines."
     )
     res.assumptions = [
         "coupling equations are affine with max-norm of the coupling matrix <= 1/2 (well-posed, contractive); objective/constraints affine or quadratic",
@@ -2672,6 +2689,8 @@ def run(ctx) -> Result:
         "integer design variables are never couplings and hold integers at every point; a point is passed as an int64 (float32) array only when every coordinate is an integer (exactly representable in float32)",
         "DOE stream on a design space with integer variables: samples given in the design space (normalize_design_space=False)",
         "sparse Jacobian blocks are csr_array / csc_array / coo_matrix built from the values; coo_array is not generated (it cannot be indexed and GEMSEO reads the first row of a sparse block by indexing)",
+        "optional inputs (not in required_names, with a default value) are design variables or fixed parameters of the harness disciplines, never coupling inputs",
+        "sessions: at most the formulations of one case (<= 10 + the DOE scenario's) are alive together; a replay is the smallest candidate that fails in a fresh interpreter",
         "mask/unmask round trip is asserted only for masking names listed in the order of the reference names (the formulations only form such calls); other orders are probed against the model",
     ]
     rng = ctx.rng
